@@ -24,7 +24,7 @@ pub fn kinds_for(prop: &str) -> Vec<&'static str> {
         "C19" => vec!["model", "garbage", "stack-alloc", "capacity", "iter", "clone-count", "double-drop", "leak", "dup"],
         "C07" => vec!["forget-prefix", "model", "garbage", "dup", "dead-visible", "double-drop", "corrupt-drop", "iter"],
         "C13" => vec!["handle", "model", "garbage", "view"],
-        "C17" => vec!["rawparts", "model", "garbage", "leak", "double-drop", "alloc-leak", "alloc-shape", "dup"],
+        "C17" => vec!["rawparts", "model", "garbage", "leak", "double-drop", "alloc-leak", "alloc-shape", "alloc-layout", "dup"],
         _ => vec![],
     };
     k.push("harness");
@@ -125,6 +125,7 @@ pub fn run(ctx: &mut Ctx) {
                 fam::exhaustive(ctx, "clone", &sub, 3, false, &fam::clone_ops);
                 fam::exhaustive(ctx, "elem", &sub, 3, false, &fam::elem_seqs);
                 fam::histories(ctx, "mixed-hist", &sub, &hist(thorough, true, true, true, true));
+                crate::special::c10_large(ctx);
             }
             scale(ctx);
         }
@@ -157,6 +158,11 @@ pub fn run(ctx: &mut Ctx) {
                 fam::lying_enum(ctx, &format!("lying/{tag}"), &tracked, 3);
             }
             hvcore::guard::set_default_growth(hvcore::guard::Growth::Exact);
+            if !stack_only {
+                crate::special::c05_live_growth(ctx);
+                scale(ctx);
+                crate::special::c10_large(ctx);
+            }
         }
         "C11" => {
             use hvcore::rigapi::MemKind;
@@ -187,6 +193,8 @@ pub fn run(ctx: &mut Ctx) {
             fam::histories(ctx, "mixed-hist", &cfgs, &hist(thorough, true, true, true, true));
             if ctx.sub != "light" && !ctx.tool_mode {
                 crate::special::c18_overflow(ctx);
+                scale(ctx);
+                crate::special::c10_large(ctx);
             }
         }
         "C06" => {
@@ -198,6 +206,17 @@ pub fn run(ctx: &mut Ctx) {
             fam::fault_enum(ctx, "fault/clone", &cfgs, lf, &fam::clone_ops, if thorough { 1 } else { 5 });
             fam::fault_enum(ctx, "fault/lazy", &cfgs, 2, &fam::lazy_ops, if thorough { 1 } else { 7 });
             fam::lying_enum(ctx, "lying", &cfgs, lf);
+            // bulk operations at lengths beyond the small scope: a panic at the 9th, 17th ... destructor or clone of one call
+            let big: &[usize] = if thorough { &[9, 12, 17, 33] } else { &[9, 17] };
+            let core: Vec<_> = cfgs.iter().filter(|c| c.core).cloned().collect();
+            fam::fault_enum_lens(
+                ctx,
+                "fault/bulk",
+                &core,
+                &|cfg| big.iter().copied().filter(|n| cfg.fixed_cap.map_or(true, |c| *n <= c) && (cfg.elem.id_bits != 8 || *n <= 135)).collect(),
+                &fam::bulk_ops,
+                1,
+            );
         }
         "C07" => {
             fam::exhaustive(ctx, "forget", &cfgs, l, false, &fam::forget_ops);
